@@ -10,3 +10,95 @@ package openapiv3
 //@   ensures path.annotated: spec.basePath(service) != "" || spec.hasConfig(method) ==> r.path == spec.JoinPath(spec.basePath(service), ite(spec.hasConfig(method), spec.cfgPath(method), ""))
 //@   ensures path.default: spec.basePath(service) == "" && !spec.hasConfig(method) ==> r.path == "/" + string(service.Desc.Name()) + "/" + string(method.Desc.Name())
 //@   ensures vars: r.pathParams == spec.pathVars(method)
+
+// ---- buf.validate rules -> JSON-Schema keywords (C19) ----
+
+//@ func applyInt32Constraints(constraints *validate.FieldRules, schema *base.Schema)
+//@   requires schema != nil
+//@   modifies schema.Minimum, schema.Maximum, schema.ExclusiveMinimum, schema.ExclusiveMaximum, schema.Const, schema.Enum
+//@   let r = constraints.GetInt32()
+//@   ensures none: r == nil ==> schema.Minimum == old(schema.Minimum) && schema.Maximum == old(schema.Maximum) && schema.ExclusiveMinimum == old(schema.ExclusiveMinimum) && schema.ExclusiveMaximum == old(schema.ExclusiveMaximum) && schema.Const == old(schema.Const) && schema.Enum == old(schema.Enum)
+//@   ensures gte: r != nil ==> ite(r.HasGte(), schema.Minimum != nil && deref(schema.Minimum) == toReal(r.GetGte()), schema.Minimum == old(schema.Minimum))
+//@   ensures lte: r != nil ==> ite(r.HasLte(), schema.Maximum != nil && deref(schema.Maximum) == toReal(r.GetLte()), schema.Maximum == old(schema.Maximum))
+//@   ensures gt: r != nil ==> ite(r.HasGt(), spec.exclMinActive(schema) && schema.ExclusiveMinimum.B == toReal(r.GetGt()), schema.ExclusiveMinimum == old(schema.ExclusiveMinimum))
+//@   ensures lt: r != nil ==> ite(r.HasLt(), spec.exclMaxActive(schema) && schema.ExclusiveMaximum.B == toReal(r.GetLt()), schema.ExclusiveMaximum == old(schema.ExclusiveMaximum))
+//@   ensures const: r != nil ==> ite(r.HasConst(), schema.Const != nil && schema.Const.Kind == yaml.ScalarNode && schema.Const.Tag == "" && schema.Const.Value == strconv.Itoa(int(r.GetConst())), schema.Const == old(schema.Const))
+//@   ensures in: r != nil && len(r.GetIn()) > 0 ==> len(schema.Enum) == len(r.GetIn()) && (forall k int :: 0 <= k && k < len(schema.Enum) ==> schema.Enum[k] != nil && schema.Enum[k].Kind == yaml.ScalarNode && schema.Enum[k].Tag == "" && schema.Enum[k].Value == strconv.Itoa(int(r.GetIn()[k])))
+//@   ensures noin: r != nil && len(r.GetIn()) == 0 ==> schema.Enum == old(schema.Enum)
+//@   loop 1 invariant len(schema.Enum) == _i && (forall k int :: 0 <= k && k < len(schema.Enum) ==> schema.Enum[k] != nil && schema.Enum[k].Kind == yaml.ScalarNode && schema.Enum[k].Tag == "" && schema.Enum[k].Value == strconv.Itoa(int(int32Constraints.GetIn()[k])))
+
+//@ func applyInt64Constraints(constraints *validate.FieldRules, schema *base.Schema)
+//@   requires schema != nil
+//@   modifies schema.Minimum, schema.Maximum, schema.ExclusiveMinimum, schema.ExclusiveMaximum, schema.Const, schema.Enum
+//@   let r = constraints.GetInt64()
+//@   ensures none: r == nil ==> schema.Minimum == old(schema.Minimum) && schema.Maximum == old(schema.Maximum) && schema.ExclusiveMinimum == old(schema.ExclusiveMinimum) && schema.ExclusiveMaximum == old(schema.ExclusiveMaximum) && schema.Const == old(schema.Const) && schema.Enum == old(schema.Enum)
+//@   ensures gte: r != nil ==> ite(r.HasGte(), schema.Minimum != nil && deref(schema.Minimum) == float64(r.GetGte()), schema.Minimum == old(schema.Minimum))
+//@   ensures lte: r != nil ==> ite(r.HasLte(), schema.Maximum != nil && deref(schema.Maximum) == float64(r.GetLte()), schema.Maximum == old(schema.Maximum))
+//@   ensures gt: r != nil ==> ite(r.HasGt(), spec.exclMinActive(schema) && schema.ExclusiveMinimum.B == float64(r.GetGt()), schema.ExclusiveMinimum == old(schema.ExclusiveMinimum))
+//@   ensures lt: r != nil ==> ite(r.HasLt(), spec.exclMaxActive(schema) && schema.ExclusiveMaximum.B == float64(r.GetLt()), schema.ExclusiveMaximum == old(schema.ExclusiveMaximum))
+//@   ensures const: r != nil ==> ite(r.HasConst(), schema.Const != nil && schema.Const.Kind == yaml.ScalarNode && schema.Const.Tag == "" && schema.Const.Value == strconv.FormatInt(r.GetConst(), 10), schema.Const == old(schema.Const))
+//@   ensures in: r != nil && len(r.GetIn()) > 0 ==> len(schema.Enum) == len(r.GetIn()) && (forall k int :: 0 <= k && k < len(schema.Enum) ==> schema.Enum[k] != nil && schema.Enum[k].Kind == yaml.ScalarNode && schema.Enum[k].Tag == "" && schema.Enum[k].Value == strconv.FormatInt(r.GetIn()[k], 10))
+//@   ensures noin: r != nil && len(r.GetIn()) == 0 ==> schema.Enum == old(schema.Enum)
+//@   loop 1 invariant len(schema.Enum) == _i && (forall k int :: 0 <= k && k < len(schema.Enum) ==> schema.Enum[k] != nil && schema.Enum[k].Kind == yaml.ScalarNode && schema.Enum[k].Tag == "" && schema.Enum[k].Value == strconv.FormatInt(int64Constraints.GetIn()[k], 10))
+
+//@ func applyFloatConstraints(constraints *validate.FieldRules, schema *base.Schema)
+//@   requires schema != nil
+//@   modifies schema.Minimum, schema.Maximum, schema.ExclusiveMinimum, schema.ExclusiveMaximum, schema.Const, schema.Enum
+//@   let r = constraints.GetFloat()
+//@   ensures none: r == nil ==> schema.Minimum == old(schema.Minimum) && schema.Maximum == old(schema.Maximum) && schema.ExclusiveMinimum == old(schema.ExclusiveMinimum) && schema.ExclusiveMaximum == old(schema.ExclusiveMaximum) && schema.Const == old(schema.Const) && schema.Enum == old(schema.Enum)
+//@   ensures gte: r != nil ==> ite(r.HasGte(), schema.Minimum != nil && deref(schema.Minimum) == float64(r.GetGte()), schema.Minimum == old(schema.Minimum))
+//@   ensures lte: r != nil ==> ite(r.HasLte(), schema.Maximum != nil && deref(schema.Maximum) == float64(r.GetLte()), schema.Maximum == old(schema.Maximum))
+//@   ensures gt: r != nil ==> ite(r.HasGt(), spec.exclMinActive(schema) && schema.ExclusiveMinimum.B == float64(r.GetGt()), schema.ExclusiveMinimum == old(schema.ExclusiveMinimum))
+//@   ensures lt: r != nil ==> ite(r.HasLt(), spec.exclMaxActive(schema) && schema.ExclusiveMaximum.B == float64(r.GetLt()), schema.ExclusiveMaximum == old(schema.ExclusiveMaximum))
+//@   ensures const: r != nil ==> ite(r.HasConst(), schema.Const != nil && schema.Const.Kind == yaml.ScalarNode && schema.Const.Tag == "" && schema.Const.Value == fmt.Sprintf("%g", r.GetConst()), schema.Const == old(schema.Const))
+//@   ensures in: r != nil && len(r.GetIn()) > 0 ==> len(schema.Enum) == len(r.GetIn()) && (forall k int :: 0 <= k && k < len(schema.Enum) ==> schema.Enum[k] != nil && schema.Enum[k].Kind == yaml.ScalarNode && schema.Enum[k].Tag == "" && schema.Enum[k].Value == fmt.Sprintf("%g", r.GetIn()[k]))
+//@   ensures noin: r != nil && len(r.GetIn()) == 0 ==> schema.Enum == old(schema.Enum)
+//@   loop 1 invariant len(schema.Enum) == _i && (forall k int :: 0 <= k && k < len(schema.Enum) ==> schema.Enum[k] != nil && schema.Enum[k].Kind == yaml.ScalarNode && schema.Enum[k].Tag == "" && schema.Enum[k].Value == fmt.Sprintf("%g", floatConstraints.GetIn()[k]))
+
+//@ func applyDoubleConstraints(constraints *validate.FieldRules, schema *base.Schema)
+//@   requires schema != nil
+//@   modifies schema.Minimum, schema.Maximum, schema.ExclusiveMinimum, schema.ExclusiveMaximum, schema.Const, schema.Enum
+//@   let r = constraints.GetDouble()
+//@   ensures none: r == nil ==> schema.Minimum == old(schema.Minimum) && schema.Maximum == old(schema.Maximum) && schema.ExclusiveMinimum == old(schema.ExclusiveMinimum) && schema.ExclusiveMaximum == old(schema.ExclusiveMaximum) && schema.Const == old(schema.Const) && schema.Enum == old(schema.Enum)
+//@   ensures gte: r != nil ==> ite(r.HasGte(), schema.Minimum != nil && deref(schema.Minimum) == float64(r.GetGte()), schema.Minimum == old(schema.Minimum))
+//@   ensures lte: r != nil ==> ite(r.HasLte(), schema.Maximum != nil && deref(schema.Maximum) == float64(r.GetLte()), schema.Maximum == old(schema.Maximum))
+//@   ensures gt: r != nil ==> ite(r.HasGt(), spec.exclMinActive(schema) && schema.ExclusiveMinimum.B == float64(r.GetGt()), schema.ExclusiveMinimum == old(schema.ExclusiveMinimum))
+//@   ensures lt: r != nil ==> ite(r.HasLt(), spec.exclMaxActive(schema) && schema.ExclusiveMaximum.B == float64(r.GetLt()), schema.ExclusiveMaximum == old(schema.ExclusiveMaximum))
+//@   ensures const: r != nil ==> ite(r.HasConst(), schema.Const != nil && schema.Const.Kind == yaml.ScalarNode && schema.Const.Tag == "" && schema.Const.Value == fmt.Sprintf("%g", r.GetConst()), schema.Const == old(schema.Const))
+//@   ensures in: r != nil && len(r.GetIn()) > 0 ==> len(schema.Enum) == len(r.GetIn()) && (forall k int :: 0 <= k && k < len(schema.Enum) ==> schema.Enum[k] != nil && schema.Enum[k].Kind == yaml.ScalarNode && schema.Enum[k].Tag == "" && schema.Enum[k].Value == fmt.Sprintf("%g", r.GetIn()[k]))
+//@   ensures noin: r != nil && len(r.GetIn()) == 0 ==> schema.Enum == old(schema.Enum)
+//@   loop 1 invariant len(schema.Enum) == _i && (forall k int :: 0 <= k && k < len(schema.Enum) ==> schema.Enum[k] != nil && schema.Enum[k].Kind == yaml.ScalarNode && schema.Enum[k].Tag == "" && schema.Enum[k].Value == fmt.Sprintf("%g", doubleConstraints.GetIn()[k]))
+
+//@ func applyRepeatedConstraints(constraints *validate.FieldRules, schema *base.Schema)
+//@   requires schema != nil
+//@   modifies schema.MinItems, schema.MaxItems, schema.UniqueItems
+//@   let r = constraints.GetRepeated()
+//@   ensures none: r == nil ==> schema.MinItems == old(schema.MinItems) && schema.MaxItems == old(schema.MaxItems) && schema.UniqueItems == old(schema.UniqueItems)
+//@   ensures min: r != nil ==> ite(r.HasMinItems(), schema.MinItems != nil && deref(schema.MinItems) == int64(r.GetMinItems()), schema.MinItems == old(schema.MinItems))
+//@   ensures max: r != nil ==> ite(r.HasMaxItems(), schema.MaxItems != nil && deref(schema.MaxItems) == int64(r.GetMaxItems()), schema.MaxItems == old(schema.MaxItems))
+//@   ensures unique: r != nil ==> ite(r.GetUnique(), schema.UniqueItems != nil && deref(schema.UniqueItems), schema.UniqueItems == old(schema.UniqueItems))
+
+//@ func applyMapConstraints(constraints *validate.FieldRules, schema *base.Schema)
+//@   requires schema != nil
+//@   modifies schema.MinProperties, schema.MaxProperties
+//@   let r = constraints.GetMap()
+//@   ensures none: r == nil ==> schema.MinProperties == old(schema.MinProperties) && schema.MaxProperties == old(schema.MaxProperties)
+//@   ensures min: r != nil ==> ite(r.HasMinPairs(), schema.MinProperties != nil && deref(schema.MinProperties) == int64(r.GetMinPairs()), schema.MinProperties == old(schema.MinProperties))
+//@   ensures max: r != nil ==> ite(r.HasMaxPairs(), schema.MaxProperties != nil && deref(schema.MaxProperties) == int64(r.GetMaxPairs()), schema.MaxProperties == old(schema.MaxProperties))
+
+//@ func applyStringConstraints(constraints *validate.FieldRules, schema *base.Schema)
+//@   requires schema != nil
+//@   modifies schema.MinLength, schema.MaxLength, schema.Pattern, schema.Format, schema.Const, schema.Enum
+//@   let r = constraints.GetString()
+//@   ensures none: r == nil ==> schema.MinLength == old(schema.MinLength) && schema.MaxLength == old(schema.MaxLength) && schema.Pattern == old(schema.Pattern) && schema.Format == old(schema.Format) && schema.Const == old(schema.Const) && schema.Enum == old(schema.Enum)
+//@   ensures minlen: r != nil ==> ite(r.HasMinLen(), schema.MinLength != nil && deref(schema.MinLength) == int64(r.GetMinLen()), schema.MinLength == old(schema.MinLength))
+//@   ensures maxlen: r != nil ==> ite(r.HasMaxLen(), schema.MaxLength != nil && deref(schema.MaxLength) == int64(r.GetMaxLen()), schema.MaxLength == old(schema.MaxLength))
+//@   ensures pattern: r != nil ==> schema.Pattern == ite(r.HasPattern(), r.GetPattern(), old(schema.Pattern))
+//@   ensures format: r != nil ==> schema.Format == ite(r.GetEmail(), "email", ite(r.GetUuid(), "uuid", ite(r.GetUri(), "uri", ite(r.GetUriRef(), "uri-reference", ite(r.GetAddress(), "ip", ite(r.GetHostname(), "hostname", ite(r.GetIp(), "ip", ite(r.GetIpv4(), "ipv4", ite(r.GetIpv6(), "ipv6", old(schema.Format))))))))))
+//@   ensures const: r != nil ==> ite(r.HasConst(), schema.Const != nil && schema.Const.Kind == yaml.ScalarNode && schema.Const.Value == r.GetConst(), schema.Const == old(schema.Const))
+//@   ensures in: r != nil && len(r.GetIn()) > 0 ==> len(schema.Enum) == len(r.GetIn()) && (forall k int :: 0 <= k && k < len(schema.Enum) ==> schema.Enum[k] != nil && schema.Enum[k].Kind == yaml.ScalarNode && schema.Enum[k].Value == r.GetIn()[k])
+//@   loop 1 invariant len(schema.Enum) == _i && (forall k int :: 0 <= k && k < len(schema.Enum) ==> schema.Enum[k] != nil && schema.Enum[k].Kind == yaml.ScalarNode && schema.Enum[k].Value == stringConstraints.GetIn()[k])
+
+//@ func checkIfFieldRequired(field *protogen.Field) (r bool)
+//@   pure
+//@   ensures r == (spec.hasRules(field) && spec.fieldRules(field).GetRequired())
